@@ -422,9 +422,12 @@ pub fn run(ctx: &mut Ctx) {
         let Ok(eos) = (c.build)() else { continue };
         let Some(cp) = physical_critical_point(&eos) else { continue };
         let (tc, pc, rhoc) = (cp.temperature.to_reduced(), cp.pressure(Contributions::Total).to_reduced(), cp.density.to_reduced());
-        for i in 0..ntr {
+        // the uniform lattice plus a band just below the critical temperature, where the liquid spinodal pressure is positive
+        // and a requested pressure can lie below it (the "no liquid root" exit of the density iteration)
+        let mut trs: Vec<f64> = (0..ntr).map(|i| 0.45 + 1.2 * i as f64 / (ntr - 1) as f64).collect();
+        trs.extend(tier.pick(vec![0.93, 0.97], vec![0.9, 0.925, 0.94, 0.96, 0.975, 0.985, 0.995]));
+        for tr in trs {
             for j in 0..npr {
-                let tr = 0.45 + 1.2 * i as f64 / (ntr - 1) as f64;
                 let pr = 10f64.powf(-4.0 + 5.0 * j as f64 / (npr - 1) as f64);
                 tp.push(TpCase { id: format!("{}|{}", c.file, c.name), eos: eos.clone(), x: arr1(&[1.0]), tc, pc, rhoc, tr, pr, must_succeed: is_gs });
             }
